@@ -268,3 +268,61 @@ def role_of(e):
     if has('mag', 'mw'):
         roles.add('mag')
     return roles
+
+
+# ------------------------------------------------------------------------------------------ result objects
+RESULT_FIELDS = ('test_distribution', 'name', 'observed_statistic', 'quantile', 'status', 'obs_catalog_repr',
+                 'sim_name', 'obs_name', 'min_mw')
+
+
+def result_fields(prog, f, ex=None):
+    """Fields of the evaluation-result object(s) a public test function returns.
+    -> list of dicts {field: (expanded expr, node)} - one per returned object construction site.
+    Handles `r = EvaluationResult(); r.x = ...; return r` and `return Cls(x=..., ...)`."""
+    ex = ex or Expander(prog, f)
+    out = []
+    model_classes = {q for q, c in prog.classes.items() if c.module.name == 'csep.models'}
+    for ret in returns(f):
+        if ret.value is None:
+            continue
+        v = ret.value
+        if isinstance(v, ast.Constant) and v.value is None:
+            out.append({'__none__': (v, ret), '__ret__': ret})
+            continue
+        ctor = None
+        varname = None
+        if isinstance(v, ast.Name):
+            varname = v.id
+            node = f.cfg.node_of(ret)
+            for d in f.cfg.defs_reaching(node, varname):
+                dn = f.cfg.nodes[d]
+                if isinstance(dn.ast, ast.Assign) and isinstance(dn.ast.value, ast.Call):
+                    ctor = dn.ast.value
+        elif isinstance(v, ast.Call):
+            ctor = v
+        if ctor is None:
+            continue
+        cname = prog.canon(f, ctor.func)
+        if cname not in model_classes:
+            continue
+        fields = {'__class__': (cname, ctor), '__ret__': ret}
+        for k in ctor.keywords:
+            if k.arg:
+                fields[k.arg] = (ex.expand(k.value), k.value)
+        if varname:
+            rnode = f.cfg.node_of(ret)
+            for n in all_nodes(f):
+                if isinstance(n, ast.Assign) and len(n.targets) == 1 and isinstance(n.targets[0], ast.Attribute) \
+                        and isinstance(n.targets[0].value, ast.Name) and n.targets[0].value.id == varname:
+                    sn = f.cfg.node_of(n)
+                    if sn is not None and rnode is not None and (f.cfg.can_reach(sn, rnode) or sn is rnode):
+                        fld = n.targets[0].attr
+                        val = (ex.expand(n.value), n.value)
+                        if fld in fields and isinstance(fields[fld], tuple) and fld not in ('__class__',):
+                            # several assignments (e.g. under try/except): keep all as phi
+                            prev = fields[fld][0]
+                            fields[fld] = (mk('__phi__', prev, val[0]), n.value)
+                        else:
+                            fields[fld] = val
+        out.append(fields)
+    return out
